@@ -393,6 +393,69 @@ func refServerPairUnit(suite uint16, part, parts int) harness.Unit {
 	}}
 }
 
+// runClientCase plays one scripted-client case against a library server with the given configuration.
+func runClientCase(suite uint16, i int, rc refCase, sc *gmtls.Config) *tlsk.RefOutcome {
+	id := tlsk.ClientIdentity()
+	id.Certs = append([][]byte{}, id.Certs...)
+	if rc.ident != nil {
+		rc.ident(&id)
+	}
+	script := &gmref.Script{SendClientCert: true, Data: tlsk.PingPong(true), Mutate: rc.mutate}
+	return tlsk.RunLibVsRef(sc, false, tlsk.LibApp(false), id, byte(60+i), func(q *gmref.Peer) { q.Suites = []uint16{suite} }, script, nil)
+}
+
+func freshServer(suite uint16, pol gmtls.ClientAuthType) *gmtls.Config {
+	p := tlsk.Get()
+	pool := gx509.NewCertPool()
+	pool.AddCert(p.CA)
+	sc := baseServer(suite, 34)
+	sc.ClientAuth, sc.ClientCAs = pol, pool
+	return sc
+}
+
+// refClientPairUnit: the same for the server: every ordered pair (A, B) of scripted-client cases on
+// ONE server Config (own ClientCAs pool, session tickets on); B's verdict must equal B's verdict on
+// a fresh Config.
+func refClientPairUnit(suite uint16, pol gmtls.ClientAuthType, part, parts int) harness.Unit {
+	return harness.Unit{Name: fmt.Sprintf("scripted-client-pairs/%04x/ClientAuth=%d/part%d", suite, pol, part), Run: func(c *harness.Ctx) {
+		cases := clientCases()
+		alone := make([]bool, len(cases))
+		for j, rc := range cases {
+			alone[j] = runClientCase(suite, j, rc, freshServer(suite, pol)).Lib.Complete
+		}
+		for i, a := range cases {
+			if i%parts != part {
+				continue
+			}
+			if len(a.name) > 8 && a.name[:8] == "Finished" && i%6 != 0 {
+				continue
+			}
+			for j, b := range cases {
+				sc := freshServer(suite, pol)
+				runClientCase(suite, i, a, sc)
+				o := runClientCase(suite, j, b, sc)
+				tag := fmt.Sprintf("suite=%04x ClientAuth=%d one server Config, first [%s] then [%s]", suite, pol, a.name, b.name)
+				c.Add("evaluations", 1)
+				c.DistinctS("nontrivial", tag)
+				if c.WantSample() {
+					c.Sample(tag)
+				}
+				if o.Lib.Panic != nil {
+					c.Violate("panic:scripted-client-pair:"+site(o.Lib.Stack), fmt.Sprintf("[%s] server panicked: %v\n%s", tag, o.Lib.Panic, clip(o.Lib.Stack, 1200)), nil, tag)
+					continue
+				}
+				if o.Lib.Complete != alone[j] {
+					what := "accepts"
+					if alone[j] {
+						what = "refuses"
+					}
+					c.Violate(fmt.Sprintf("history-dependent:server-%s:%s:after:%s", what, b.name, a.name), fmt.Sprintf("[%s] the server %s the second peer, but with a fresh configuration the same peer gets complete=%v: %s", tag, what, alone[j], o.Describe()), nil, tag)
+				}
+			}
+		}
+	}}
+}
+
 func refClientUnit(suite uint16) harness.Unit {
 	return harness.Unit{Name: fmt.Sprintf("scripted-malicious-client/%04x", suite), Run: func(c *harness.Ctx) {
 		p := tlsk.Get()
